@@ -44,7 +44,10 @@ class DataArr:
             return DataArr(z3.If(hi > lo, hi - lo, z3.IntVal(0)), lambda i, lo=lo: self.prov(i + lo), self.tag, self.rest)
         raise TypeError("row indexing of DataArr")
 
-    def reshape(self, nb, bs, *rest):
+    def reshape(self, *shape):
+        if len(shape) == 1 and isinstance(shape[0], (tuple, list)):
+            shape = tuple(shape[0])  # arr.reshape((a, b, ...)) and arr.reshape(a, b, ...) are the same call
+        nb, bs = shape[0], shape[1]
         return Batched(lift(nb), lift(bs), self)
 
 
